@@ -131,7 +131,8 @@ Definition refine (t : tree) (ns : list rname) : tree * bool :=
 (* ================================================================ batch size =========================== *)
 (* _check_new_batch_size (after fixes/C01/D101_D102_D110.diff): pure and recursive.  A nested collection that is going
    to receive the new size — fewer dims, or no content and a size that does not extend the new one — is checked through
-   its own content (a NonTensorData accepts any size); every other entry must have the new size as leading dims. *)
+   its own content (the code skips pass-through collections such as NonTensorData here; they hold no entry, so the
+   recursion below says the same); every other entry must have the new size as leading dims. *)
 Fixpoint check_new_t (new : list nat) (t : tree) : bool :=
   match t with
   | Leaf _ _ => true
@@ -139,9 +140,9 @@ Fixpoint check_new_t (new : list nat) (t : tree) : bool :=
       forallb (fun kv =>
                  match snd kv with
                  | Leaf sh _ => prefixb new sh
-                 | Node ck cbs _ _ _ =>
+                 | Node _ cbs _ _ _ =>
                      if Nat.ltb (List.length cbs) (List.length new) || (negb (prefixb new cbs) && is_empty (snd kv))
-                     then match ck with KNt => true | KTd => check_new_t new (snd kv) end
+                     then check_new_t new (snd kv)
                      else prefixb new cbs
                  end) es
   end.
@@ -513,7 +514,12 @@ Definition rename_key (old new : list string) (safe : bool) (self : tree) : tree
             let '(s1, o1) :=
               match new with
               | [k] => put_path new v self
-              | _ => if fixed_D103 then set_tuple new (VTree v) INo self else put_path new v self
+              | _ =>
+                  if fixed_D103 then
+                    (* the value is the very object that still sits under the old key: when the destination node
+                       adopts / erases dim names it renames that object too (aliasing the tree model cannot express) *)
+                    if has_names v then (self, Unmodelled) else set_tuple new (VTree v) INo self
+                  else put_path new v self
               end in
             match o1 with
             | Done =>
